@@ -174,10 +174,24 @@ def src_limits():
     out.append(("wide-before", "@\U0001f600a @b\U0001f600 @c\nFeature: \U0001f600 f\n  Scenario Outline: \U0001f600<\U0001f600>\n    Given \U0001f600 <\U0001f600> x\n      | \U0001f600 | b\U0001f600 |  \U0001f600c |\n"
                 "      | \\|\U0001f600 | \\n | d |\n    @\U0001f600 @e #\U0001f600\n    Examples: \U0001f600\n      | \U0001f600 | x |\n      | \U0001f600\U0001f600 | \U0001f600 |\n", "en"))
     out.append(("wide-before-error", "Feature: f\n  Scenario: s\n    Given x\n      | \U0001f600 | b |\n      | \U0001f600 |\n  @\U0001f600 bad \U0001f600\n \U0001f600junk\n", "en"))
+    # a description that starts after one, two, three blank lines, for every titled element (the blank lines are not part of it)
+    out.append(("description-after-blanks:0", "Feature: f\n\n\n  feature text\n\n  Rule: r\n\n\n    rule text\n\n    Background: b\n\n      background text\n      more\n\n    Example: e\n\n\n\n      example text\n", "en"))
+    out.append(("description-after-blanks:1", "Feature: f\n  Scenario Outline: o\n\n\n    outline text\n    Given <a>\n    Examples: e\n\n\n      examples text\n      | a |\n      | 1 |\n  Rule: r\n\n  \n \t\n    rule text\n", "en"))
+    out.append(("description-after-blanks:2", "Feature: f\n  @t\n\n  Rule: r\n\n    text\n  @u\n\n\n  @v\n  Rule: q\n\n\n    text\n    Scenario: s\n", "en"))
+    # a media type that contains the escaped form of a delimiter, a backslash, a placeholder, blanks inside (it is reported as written, trimmed)
+    out.append(("media-type-verbatim", "Feature: f\n  Scenario Outline: o\n    Given x\n      \"\"\"tmpl; fence=\\\"\\\"\\\" \\`\\`\\` \\ <a>\n      c\n      \"\"\"\n    And y\n      ```  a  b\\`\\`\\`c \\\"\\\"\\\"  \n      c\n      ```\n    Examples:\n      | a |\n      | 1 |\n", "en"))
+    # a placeholder in exactly ONE of the places where it is substituted (and in the places where it is not: examples name, tags, description, background step)
+    places = {"name": ("Scenario Outline: n <a>", "Given s", "| c |", "d", ""), "step": ("Scenario Outline: n", "Given s <a>", "| c |", "d", ""), "cell": ("Scenario Outline: n", "Given s", "| c | <a> | e |", "d", ""),
+              "content": ("Scenario Outline: n", "Given s", "| c |", "d <a>", ""), "media": ("Scenario Outline: n", "Given s", "| c |", "d", "m<a>"), "none": ("Scenario Outline: n", "Given s", "| c |", "d", "m")}
+    for k, (pl, (title, step, row, content, media)) in enumerate(places.items()):
+        out.append((f"placeholder-only-in:{pl}", f"@t<a>\nFeature: f <a>\n  <a> in a description\n  Background:\n    Given b <a>\n  {title}\n    {step}\n      {row}\n    And t\n      \"\"\"{media}\n      {content}\n      \"\"\"\n"
+                    f"    @e<a>\n    Examples: x <a>\n      | a | b |\n      | 1 |  |\n      |  | 2 |\n", "en"))
     # counts beyond any small-number threshold (caches, recursion depth, fixed-size buffers): more than a thousand of each repeatable construct
     N = 1100
     out.append(("count:tags-on-line", " ".join(f"@t{i}" for i in range(300)) + "\nFeature: f\n  " + "".join(f"@u{i}" for i in range(300)) + "\n  Scenario: s\n", "en"))
     out.append(("count:tag-lines", "Feature: f\n" + "".join(f"  @t{i}\n" for i in range(300)) + "  Scenario: s\n    Given x\n", "en"))
+    out.append(("count:background-steps-outline", "Feature: f\n  Background:\n" + "".join(f"    * b{i}\n" for i in range(25)) + "  Scenario Outline: o\n    Given <a>\n    Examples:\n      | a |\n      | 1 |\n"
+                "  Rule: r\n    Background:\n      * c\n    Scenario Outline: p\n      Given <a>\n      Examples:\n        | a |\n        | 1 |\n", "en"))
     out.append(("count:steps", "Feature: f\n  Background:\n" + "".join(f"    * b{i}\n" for i in range(300)) + "  Scenario: s\n" + "".join(f"    {('Given', 'And', 'When', 'But', 'Then', '*')[i % 6]} x{i}\n" for i in range(N)), "en"))
     out.append(("count:example-rows", "Feature: f\n  Scenario Outline: o <a>\n    Given <a>\n    Examples:\n      | a |\n" + "".join(f"      | {i} |\n" for i in range(N)), "en"))
     out.append(("count:examples-tables", "Feature: f\n  Scenario Outline: o <a>\n    Given <a>\n" + "".join(f"    @e{i}\n    Examples: e{i}\n      | a |\n      | {i} |\n" for i in range(300)), "en"))
@@ -199,7 +213,7 @@ def src_limits():
     return out
 
 
-def record_all(sources, modes=("collect",), listing=False, iff=0):
+def record_all(sources, modes=("collect",), listing=False, iff=0, nid0=0):
     """iff: evaluate the rejected-iff-not-a-sentence-or-faulty predicate (P_C14_Iff) on the first `iff` sources (it costs a second spec run)"""
     recs = []
     k = 0
@@ -208,7 +222,7 @@ def record_all(sources, modes=("collect",), listing=False, iff=0):
             continue
         k += 1
         for m in modes:
-            recs.append(R.record(f"{name}|{m}", s, dialect, m, listing=listing and m == "collect", iff=k <= iff and m == "collect" and s.count("\n") <= 300))
+            recs.append(R.record(f"{name}|{m}" + (f"|ids-from-{nid0}" if nid0 else ""), s, dialect, m, nid0=nid0, listing=listing and m == "collect", iff=k <= iff and m == "collect" and s.count("\n") <= 300))
     return recs
 
 
